@@ -121,19 +121,47 @@ def build(e, cfg, d='/ds'):
     ds.amv = amv
     add('amplitudes', _arr(amv, vec(ns), 'float64'))
     # ---- channels ----
-    if sym and 'channels' in groups:
-        cm = [e.int('cm%d' % c, 0, ncd - 1) for c in range(nc)]
-        for a, b in itertools.combinations(cm, 2):
-            e.assume(a != b)
+    merged = cfg.get('merged')          # channel counts per probe of a merged dataset
+    if merged:
+        # layout written by Merger: probe blocks, raw ids of block k shifted by the maximum raw id of block k-1
+        assert sum(merged) == nc
+        cm, probes, orig = [], [], []
+        off = 0
+        for pi, cp_ in enumerate(merged):
+            if sym and 'channels' in groups:
+                om = [e.int('om%d_%d' % (pi, c), 0, cp_ + 1) for c in range(cp_)]
+                for a, b in itertools.combinations(om, 2):
+                    e.assume(a != b)
+            else:
+                om = list(range(cp_))[::-1] if pi % 2 else list(range(cp_))
+            orig.append(om)
+            blk = [v + off for v in om]
+            cm += blk
+            probes += [pi] * cp_
+            mx = blk[0]
+            for v in blk[1:]:
+                mx = ite(v > mx, v, mx) if isinstance(v, core.Sym) or isinstance(mx, core.Sym) else max(v, mx)
+            off = mx
+        ds.orig_maps = orig
+        ncd = cfg['ncd'] = sum(cp_ + 2 for cp_ in merged)
+        pos = []
+        for pi, cp_ in enumerate(merged):
+            for c in range(cp_):
+                pos.append([100.0 * pi + 10.0 * (c % 2), 20.0 * c])
     else:
-        cm = list(range(ncd))[::-1][:nc]
+        if sym and 'channels' in groups:
+            cm = [e.int('cm%d' % c, 0, ncd - 1) for c in range(nc)]
+            for a, b in itertools.combinations(cm, 2):
+                e.assume(a != b)
+        else:
+            cm = list(range(ncd))[::-1][:nc]
+        probes = [0] * nc
+        pos = cfg.get('positions') or [[10.0 * (c % 2), 20.0 * c] for c in range(nc)]
     ds.cm = cm
     add('channel_map', _arr(cm, vec(nc), cfg.get('map_dtype', 'int32')))
-    pos = [[10.0 * (c % 2), 20.0 * c] for c in range(nc)]
     ds.pos = pos
     add('channel_positions', _arr([v for xy in pos for v in xy], (nc, 2), 'float64'))
     shanks = [c % 2 for c in range(nc)]
-    probes = [0] * nc
     ds.shanks, ds.probes = shanks, probes
     add('channel_shanks', _arr(shanks, vec(nc), 'int32'))
     add('channel_probe', _arr(probes, vec(nc), 'int32'))
@@ -211,7 +239,7 @@ def build(e, cfg, d='/ds'):
 
 
 def case_of(ev, ds):
-    c = {'cfg': ds.cfg, 'ks': ev(ds.ks), 'st': ev(ds.st), 'sc': ev(ds.sc), 'am': ev(ds.am), 'cm': ev(ds.cm),
+    c = {'cfg': ds.cfg, 'orig_maps': [ev(m) for m in getattr(ds, 'orig_maps', [])], 'ks': ev(ds.ks), 'st': ev(ds.st), 'sc': ev(ds.sc), 'am': ev(ds.am), 'cm': ev(ds.cm),
          'tv': ev(ds.tv), 'presence': {k: (v if isinstance(v, bool) else bool(ev(v))) for k, v in ds.presence.items()},
          'extra': {k: ev(v) for k, v in ds.extra.items()}}
     if ds.raw is not None:
@@ -263,10 +291,17 @@ class RealDS(object):
         self.am_file = am.copy()
         save('amplitudes', vec(am))
         save('channel_map', vec(np.array(case['cm'], dtype=cfg.get('map_dtype', 'int32'))))
-        pos = np.array([[10.0 * (c % 2), 20.0 * c] for c in range(nc)])
+        merged = cfg.get('merged')
+        if merged:
+            pos = np.array([[100.0 * pi + 10.0 * (c % 2), 20.0 * c] for pi, cp_ in enumerate(merged) for c in range(cp_)])
+            prb = np.array([pi for pi, cp_ in enumerate(merged) for c in range(cp_)], dtype=np.int32)
+        else:
+            pos = np.array(cfg.get('positions') or [[10.0 * (c % 2), 20.0 * c] for c in range(nc)])
+            prb = np.zeros(nc, dtype=np.int32)
+        self.pos, self.probes = pos, prb
         save('channel_positions', pos)
         save('channel_shanks', vec(np.array([c % 2 for c in range(nc)], dtype=np.int32)))
-        save('channel_probe', vec(np.zeros(nc, dtype=np.int32)))
+        save('channel_probe', vec(prb))
         tv = np.array(case['tv'], dtype=cfg.get('tpl_dtype', 'float32')).reshape(T, nsw, nc)
         if cfg.get('nan') == 'template':
             tv[0] = np.nan
